@@ -355,4 +355,14 @@ example : (processBlock .debug skein512 { t0 := BitVec.ofNat 64 (2 ^ 64 - 64), t
   (skein_debug_check_at_limit skein512 _ [] 64 (by decide)).2.1 (by decide)
 end SkeinEx
 
+
+/-- **Source tie.**  The counter code this property is about (`increase_count`, the `update` / `finalize_into_dirty` /
+    `reset` glue of all four hash families with their counter fields) is the code REGENERATED from /repo's current
+    source: the source obligations of C04–C07, registered here as well. -/
+theorem source_counters_match :
+    type_of% @CC.Thm.C04.source_code_match ∧ type_of% @CC.Thm.C04.source_glue_match ∧ type_of% @CC.Thm.C05.source_glue_match ∧
+    type_of% @CC.Thm.C06.source_glue_match ∧ type_of% @CC.Thm.C07.source_glue_match :=
+  ⟨CC.Thm.C04.source_code_match, CC.Thm.C04.source_glue_match, CC.Thm.C05.source_glue_match,
+   CC.Thm.C06.source_glue_match, CC.Thm.C07.source_glue_match⟩
+
 end CC.Thm.C17
